@@ -669,4 +669,81 @@ def r10_reader_decoding(a, tier):
     return rep
 
 
-RULES = [r1_mirror, r2_codecs, r3_reader, r4_exception_sets, r5_file_lifecycle, r6_checksum, r7_queue_invariants, r8_rle_roundtrip, r9_packet_fields, r10_reader_decoding]
+def r11_resume_offset(a, tier):
+    from ..minieval import Obj, Raised, Unsupported
+    from ..modelinterp import Bound, Hook, ModelInterp, Stub
+    rep = RuleReport(
+        'C19.R11',
+        'a reader resumes where the FILE says the last complete record ended: receive(), interpreted on a stand-in file whose tell() '
+        'answers differ from the number of bytes the decoded lines re-encode to (undecodable bytes are replaced by a 3-byte character, '
+        'line ends may be translated), seeks to the stored offset first, leaves the stored offset at the tell() taken after the last '
+        'COMPLETE line (a partial last line is not passed), and yields each decodable record once - a computed offset that drifts from '
+        'the file position makes the next receive() start inside a record, which is then dropped as corrupt',
+        floor=2,
+    )
+    q = 'tatsu.packetz.queue.PacketzQueue'
+    fn = a.ct.lookup(q, 'receive')
+    if fn is None:
+        raise AnalysisError('C19.R11: PacketzQueue.receive not found')
+    scripts = [
+        ('a replaced byte in the second record, then a partial record', 10, [('A\n', 12), ('B\ufffd\n', 14), ('partial', 21)], 14, ['A', 'B\ufffd']),
+        ('two complete records', 0, [('A\n', 2), ('BC\n', 5)], 5, ['A', 'BC']),
+        ('only a partial record', 7, [('par', 10)], 7, []),
+    ]
+    for what, start, lines, want_told, want_ids in scripts:
+        state = {'i': 0, 'pos': start, 'seeks': []}
+
+        class F:
+            pass
+        f = F()
+
+        def readline(*_x, state=state, lines=lines):
+            if state['i'] >= len(lines):
+                return ''
+            ln, pos = lines[state['i']]
+            state['i'] += 1
+            state['pos'] = pos
+            return ln
+
+        class _CM:
+            def __enter__(self_):
+                return fobj
+
+            def __exit__(self_, *x):
+                return False
+        fobj = Obj()
+        me = Stub(q, _told=start, _seen=set(), _ensure_open=Hook(lambda *x, **k: fobj), path='P')  # a file is its own context manager
+        it = ModelInterp(a, {'unpack': Hook(lambda ln, *x: Obj(id=ln.rstrip('\n'), data=ln)), 'max': Hook(max), 'len': Hook(len)})
+
+        def methods(recv, name, args, kwargs, state=state):
+            if recv is fobj:
+                if name == 'seek':
+                    state['seeks'].append(args[0])
+                    state['pos'] = args[0]
+                    return args[0]
+                if name == 'readline':
+                    return readline()
+                if name == 'tell':
+                    return state['pos']
+            if isinstance(recv, str) and name == 'encode':
+                return recv.encode(*args, **kwargs)
+            return NotImplemented
+        it.methods = methods
+        try:
+            got = it.call_bound(Bound(me, fn), [], {})
+            got = list(got) if not isinstance(got, list) else got
+        except Unsupported as e:
+            raise AnalysisError(f'C19.R11: cannot interpret receive(): {e}') from e
+        except Raised as r:
+            got = f'raises {r.cls_name}'
+        ids = [getattr(p_, 'id', None) for p_ in got] if isinstance(got, list) else got
+        told = me._attrs.get('_told')
+        ok = told == want_told and ids == want_ids and state['seeks'][:1] == [start]
+        rep.add({'file': what, 'seeks': state['seeks'], 'stored_offset_after': told, 'tell_after_last_complete_line': want_told, 'delivered': ids, 'ok': ok})
+        if not ok:
+            rep.fail(fn.qualname, f'resume-offset:{what}', f'receive() on a file with {what}: seeks {state["seeks"]}, delivers {ids}, leaves the stored offset at {told}; required: seek({start}) '
+                     f'first, {want_ids} delivered, the offset at {want_told} (the file position after the last complete line)', fn.loc)
+    return rep
+
+
+RULES = [r1_mirror, r2_codecs, r3_reader, r4_exception_sets, r5_file_lifecycle, r6_checksum, r7_queue_invariants, r8_rle_roundtrip, r9_packet_fields, r10_reader_decoding, r11_resume_offset]
